@@ -1,21 +1,104 @@
-"""C07 – lifecycle property, see vf/life.py (engine + oracle_c07)."""
+"""C07 – stop callback exactly once per established session, with the right reason.
+
+Layer S, vf.life engine.  Oracle from the trace: on_stop count == 1 iff the state
+log contains CONNECTED (else 0); argument == (a graceful disconnect - disconnect(),
+force disconnect, or a DisconnectRequest delivered to an established session - was
+initiated before the CLOSED write), "before" = position in the global trace.
+"""
 from __future__ import annotations
+
+from hypothesis import strategies as st
 
 from vf import life
 from vf.props._lifeprop import run_with
 
 ID = "C07"
 LEVEL = "exploration"
-RULE = "placeholder"
-ASSUMPTIONS = []
-BUDGET = {"quick": {"examples": 800, "shards": 4}, "thorough": {"examples": 20000, "shards": 16}}
+RULE = (
+    "case = lifecycle schedule (see C05) with up to 4 close causes in any order/multiplicity: DisconnectRequest (alone, "
+    "repeated, followed by other frames), disconnect(), force disconnect, EOF, reset, write failure on the next write "
+    "(incl. on the DisconnectResponse), ping timeout (device silent), garbage / undecodable payload / bad MAC; at "
+    "every lifecycle stage. Enumerated: all ordered pairs of 9 causes at the same instant and one tick apart on an "
+    "established session, both framings. Oracle: on_stop called exactly once iff CONNECTED was reached; argument "
+    "true iff a graceful initiation precedes the CLOSED write in the trace. non-trivial = session reached CONNECTED "
+    "and >= 2 close causes occurred."
+)
+ASSUMPTIONS = [
+    "a DisconnectRequest counts as a device-initiated disconnect once delivered in state HANDSHAKE_COMPLETE/CONNECTED "
+    "(a frame pushed before the client's hello was sent is not a protocol request)",
+    "a disconnect() issued while the client holds no connection is a no-op and counts for nothing",
+]
+EXHAUSTIVE_NOTE = "ordered pairs of 9 close causes x {same instant, 1 tick apart, 1 latency apart} x {plaintext, noise}"
+BUDGET = {"quick": {"examples": 700, "shards": 4}, "thorough": {"examples": 25000, "shards": 16}}
+FLOORS = {"two_or_more_close_causes": 0.05, "reached_connected": 0.4}
+
+PAIR_CAUSES = [
+    {"do": "disconnect"}, {"do": "force"}, {"do": "eof"}, {"do": "reset"},
+    {"do": "chunk", "frames": ["discreq"]}, {"do": "chunk", "frames": ["garbage"]}, {"do": "chunk", "frames": ["badproto"]},
+    {"do": "writefail_raise"}, {"do": "writefail_fatal"},
+]
 
 
 def run_case(case):
     res = run_with(ID, case)
-    res.nontrivial = "close_before_main_end" in res.classes
+    res.nontrivial = "reached_connected" in res.classes and "two_or_more_close_causes" in res.classes
     return res
 
 
+@st.composite
+def _biased(draw, tier):
+    c = draw(life.case_strategy(tier, max_events=4))
+    # make sure most sessions get established before causes pile up
+    if draw(st.integers(0, 2)) > 0:
+        c["tcp"] = "ok"
+        c["auto"] = True
+        for ev in c["events"]:
+            if "at" in ev and ev["at"] < 30 and draw(st.booleans()):
+                ev["at"] += 30
+    if draw(st.integers(0, 3)) == 0:
+        # a ping / request right after an armed write failure, so that the write error is the cause
+        c["events"].append({"do": "chunk", "frames": ["ping"], "at": draw(st.integers(30, 300))})
+    return c
+
+
+@st.composite
+def _multi_cause(draw, tier):
+    """Established session, then 2-4 close causes inside a small window (same turn .. a few ticks apart);
+    a slow device keeps a graceful disconnect() pending while the other causes arrive."""
+    c = {
+        "noise": draw(st.booleans()),
+        "login": draw(st.booleans()),
+        "flow": draw(st.sampled_from(["connect", "full"])),
+        "K": 8.0,
+        "final_at": 200.0,
+        "latency": draw(st.sampled_from([1, 1, 8, 64])),
+    }
+    t0 = draw(st.sampled_from([200, 300, 2300, 2600]))
+    n = draw(st.integers(2, 4))
+    evs = []
+    for _ in range(n):
+        cause = draw(st.sampled_from(PAIR_CAUSES + [{"do": "silence"}, {"do": "cancel"}, {"do": "chunk", "frames": ["discreq", "discreq"]}]))
+        dt = draw(st.sampled_from([0, 0, 0, 1, 2, 4, 5, 8, 64, 300]))
+        evs.append({**cause, "at": t0 + dt})
+    if draw(st.booleans()):
+        evs.append({"do": "chunk", "frames": ["ping"], "at": t0 + draw(st.sampled_from([0, 1, 3, 6]))})
+    c["events"] = evs
+    return c
+
+
 def strategy(tier):
-    return life.case_strategy(tier)
+    return st.one_of(_biased(tier), _multi_cause(tier))
+
+
+def enumerated(tier):
+    for noise in (False, True):
+        base = {"noise": noise, "login": True, "flow": "full", "K": 8.0, "final_at": 200.0}
+        for c1 in PAIR_CAUSES:
+            for c2 in PAIR_CAUSES:
+                for dt in (0, 1, 4):
+                    yield {**base, "events": [{**c1, "at": 64}, {**c2, "at": 64 + dt}, {"do": "chunk", "frames": ["ping"], "at": 70}]}
+        # every cause alone, at steady state and during the keepalive wait, plus silence -> ping timeout
+        for c1 in PAIR_CAUSES + [{"do": "silence"}, {"do": "cancel"}]:
+            for at in (40, 64, 2100, 2200):
+                yield {**base, "events": [{**c1, "at": at}]}
+                yield {**base, "events": [{**c1, "at": at}, {"do": "silence", "at": at + 1}]}
